@@ -254,11 +254,15 @@ impl Terminal {
             Self::Trm(t, k, s, a, u, m, l) => {
                 let mut d = String::new();
                 let delimiter = k.delimiter();
-                a.decorate(&mut d, &format!("{delimiter}{t}{delimiter}"))
+                // The lookahead expression belongs to the token expression and must therefore
+                // precede the decoration (e.g. the cut operator `^`).
+                let token_expression = if let Some(la) = l {
+                    format!("{delimiter}{t}{delimiter} {}", la.to_par())
+                } else {
+                    format!("{delimiter}{t}{delimiter}")
+                };
+                a.decorate(&mut d, &token_expression)
                     .map_err(|e| anyhow!("Decorate error!: {}", e))?;
-                if let Some(la) = l {
-                    write!(d, " {}", la.to_par()).map_err(|e| anyhow!(e))?;
-                }
                 if let Some(member) = m {
                     if l.is_some() {
                         // Add space between lookahead expression and member
@@ -482,8 +486,9 @@ impl Symbol {
                         } else if let Some(nt_type) = user_type_resolver(n) {
                             nt_type
                         } else {
-                            // No alias found, use the %nt_type to skip the type later
-                            "%nt_type".to_string()
+                            // Neither an alias nor a %nt_type declaration exists for this
+                            // non-terminal: the type was given at this occurrence, keep it.
+                            user_type.to_string()
                         };
                     if alias != "%nt_type" && alias != "%t_type" {
                         // Don't print user type if it is the globally defined type
